@@ -33,6 +33,12 @@ class Sess:
     def __init__(self, name, cfg=None):
         self.name = name
         self.lines = []
+        # (session 5) every script without a byte budget also asks both sides for the transport statistics (`WCALLS`): the
+        # implementation's write loop against the Lean model of write_all (TxStream / TxMock) under the script's writer policy
+        if not cfg:
+            cfg = 'wtrace=1'
+        elif 'werr' not in cfg and 'wzero' not in cfg and 'wtrace' not in cfg:
+            cfg += ' wtrace=1'
         if cfg:
             self.lines.append('CFG ' + cfg)
         self.pid = 1
